@@ -97,14 +97,17 @@ constexpr std::size_t string_size_unsigned(uint64_t x) {
     return digits;
 }
 
+// The absolute value of this integer, as an unsigned integer.
+//
+// (Negating in the unsigned type is well defined for every input; `-x` overflows for the most
+// negative value.)
+constexpr uint64_t unsigned_magnitude(int64_t x) {
+    return (x >= 0) ? static_cast<uint64_t>(x) : (uint64_t{0} - static_cast<uint64_t>(x));
+}
+
 // The string-length needed to hold a representation of this integer.
 constexpr std::size_t string_size(int64_t x) {
-    std::size_t sign_length = 0u;
-    if (x < 0) {
-        x = -x;
-        ++sign_length;
-    }
-    return string_size_unsigned(static_cast<uint64_t>(x)) + sign_length;
+    return string_size_unsigned(unsigned_magnitude(x)) + ((x < 0) ? 1u : 0u);
 }
 
 // The sum of the template parameters.
@@ -250,7 +253,7 @@ struct IToA {
 
     static constexpr StringConstant<length> value =
         concatenate(SignIfPositiveIs<(N >= 0)>::value(),
-                    UIToA<static_cast<uint64_t>((N) >= 0) ? N : -N>::value);
+                    UIToA<unsigned_magnitude(N)>::value);
 };
 
 // Definitions for IToA<N>::value.  (Needed to prevent linker errors.)
